@@ -44,7 +44,8 @@ def case_strategy(draw, tier):
         # sequential mode: a consumer specified by Q and T_ret gets its mass flow from the start temperatures in the
         # hydraulic stage, so tfluid_k is not a pure start value there -> not generated for the sequential variants
         modes = None if kind == "bidirectional" else [m for m in genheat.CONSUMER_MODES if m != "q_tr"]
-        rec = draw(genheat.heat_net(max_n=4 if tier == "quick" else 7, const_fluid=(kind == "seq_const"), modes=modes))
+        rec = draw(genheat.heat_net(max_n=4 if tier == "quick" else 7, const_fluid=(kind == "seq_const"), modes=modes,
+                                    booster=draw(st.booleans())))
         opts = draw(genheat.heat_options(modes=("bidirectional",) if kind == "bidirectional" else ("sequential",)))
         opts.pop("nonlinear_method", None)
     n = len(rec["junction"])
